@@ -35,7 +35,11 @@ RULE = ("one run = one hypergraph (5-9 nodes incl. isolated, D 2-4, weighted or 
 # documented frequency of the three listed known findings on the unchanged tree (12000-run soak): 0.07%, 0.14%, 0.6% of
 # all runs.  A surge far above that is reported as a separate violation (<sig>/rate-above-known-finding).
 KNOWN_RATE_BOUNDS = {"C17/mt/raised[AssertionError]": 0.005, "C17/mt/loglik-decreased": 0.02, "C17/mt/maxL-differs-from-definition": 0.02,
-                     "C17/mt/row-not-normalised": 0.05}
+                     "C17/mt/row-not-normalised": 0.05,
+                     # with w or u held at the user's array (1/7 of the runs each) the psi-bookkeeping findings were seen
+                     # 1 time in 8500 such runs (30000-run sample): bound 0.3 % of ALL runs
+                     "C17/mt/loglik-decreased@fix_w": 0.003, "C17/mt/maxL-differs-from-definition@fix_w": 0.003,
+                     "C17/mt/loglik-decreased@fix_communities": 0.003, "C17/mt/maxL-differs-from-definition@fix_communities": 0.003}
 TIERS = {"quick": {"runs": 2000, "wall_cap": 240, "det_seeds": 6, "min_tests": 150},
          "thorough": {"runs": 25000, "wall_cap": 3000, "det_seeds": 24, "min_tests": 500}}
 
@@ -90,7 +94,9 @@ def generate(seed, tier):
             "normalizeU": rng.random() < 0.4, "baseline_r0": rng.random() < 0.5,
             "min_value_par": rng.choice([0.0, 0.0, 1e-5]),
             "init": rng.choice([None, None, None, "u0", "w0", "both"]), "init_seed": rng.randint(0, 10**6),
-            "decoy": _decoy(rng) if rng.random() < 0.25 else None}
+            "decoy": _decoy(rng) if rng.random() < 0.25 else None,
+            # one of the two parameter blocks is kept at the user's start array (coordinate ascent on the other block)
+            "fix": rng.choice([None] * 5 + ["w", "communities"])}
 
 
 def _decoy(rng):
@@ -164,7 +170,7 @@ _START = {}
 
 def _start_arrays(case, h):
     """The user's start arrays: ONE pair of array objects per case, handed to both same-seed runs."""
-    key = (case["seed"], case.get("init"))
+    key = (case["seed"], case.get("init"), case.get("fix"))
     if key not in _START:
         r = np.random.RandomState(case.get("init_seed", 0))
         N = h.num_nodes()
@@ -185,6 +191,14 @@ def _fit_mt(case, run_idx, clock_mode, perturb, reuse=None, decoy=None):
             extra["initialize_u0"] = u0
         if case["init"] in ("w0", "both"):
             extra["initialize_w0"] = w0
+    if case.get("fix"):
+        u0, w0 = _start_arrays(case, h)
+        if case["fix"] == "w":
+            extra["initialize_w0"] = w0
+            extra["fix_w"] = True
+        else:
+            extra["initialize_u0"] = u0
+            extra["fix_communities"] = True
     saved, clock, info = _install(case, run_idx, clock_mode)
     fac = Facade(derive(case["seed"], "globals", run_idx))
     try:
@@ -260,7 +274,7 @@ def execute(case):
                 raise Violation("C17/mt/isolated-node-nonzero-row", {"row": i, "u_row": u[i].tolist(), **ctx})
         deferred = None
         deferred2 = []
-        if case["normalizeU"]:
+        if case["normalizeU"] and case.get("fix") != "communities":  # a fixed u is the user's array, normalised or not
             for i in range(N):
                 s = u[i].sum()
                 if s != 0 and abs(s - 1) > 1e-6:
@@ -346,8 +360,10 @@ def execute(case):
         if deferred is not None:
             raise deferred
     except Violation as v:
-        return {"violation": {"sig": v.sig, "detail": v.detail}, "digest": "violation:" + v.sig, "stats": {},
-                "sample": {"case": case}}
+        vio = {"sig": v.sig, "detail": v.detail}
+        if case.get("fix"):
+            vio["rate_tag"] = "fix_" + case["fix"]  # the listed findings are far rarer with one parameter block held fixed
+        return {"violation": vio, "digest": "violation:" + v.sig, "stats": {}, "sample": {"case": case}}
     faults = {"clock_" + k: v for k, v in clock2.events.items()}
     faults["adversarial_permutation"] = info1["perm_overrides"] + info2["perm_overrides"]
     stats["simulated_clock_reads"] = clock1.reads + clock2.reads
